@@ -60,6 +60,9 @@ BodyVariants == {<<>>, <<NL(0, 0)>>, <<NL(1, 0), NL(9, 0), NL(32, 0)>>, Rep(90, 
 SweepNlri ==
   UNION {{Beh(Update(<<>>, Base \o <<MpA(t, f, nl)>>, <<>>), Opt(FALSE, FALSE, ap[1], ap[2])) :
              t \in MpKinds, nl \in NlVariants(f), ap \in ApPairs} : f \in CoreFamilies}
+  \cup UNION {{Beh(Update(<<>>, Base \o <<MpN(f, <<NL(FamMaxBits(f), IF FamClass(f) = "ip" THEN 0 ELSE 1),
+                                                     NL(9, IF FamClass(f) = "ip" THEN 0 ELSE 2)>>, nh)>>, <<>>),
+                   Opt(FALSE, FALSE, p, p)) : p \in BOOLEAN, nh \in NhKindsOf(f)} : f \in CoreFamilies}
   \cup {Beh(Update(w, Base, n), Opt(FALSE, FALSE, ap[1], ap[2])) :
            w \in BodyVariants, n \in BodyVariants, ap \in ApPairs}
   \cup {Beh(Update(w, <<>>, <<>>), Opt(FALSE, FALSE, p, FALSE)) : w \in BodyVariants, p \in BOOLEAN}
@@ -149,7 +152,9 @@ RandAttr(as2) ==
          Counted(t, RandomElement(CountClasses(t) \cup {2, 5}))
     [] t = "aspath"  -> PathA(t, RandomElement(SegClasses(IF as2 THEN 2 ELSE 4)))
     [] t = "as4path" -> PathA(t, RandomElement(SegClasses(4)))
-    [] t \in MpKinds -> LET f == RandomElement(CoreFamilies) IN MpA(t, f, RandomElement(NlVariants(f)))
+    [] t = "mpunreach" -> LET f == RandomElement(CoreFamilies) IN MpA(t, f, RandomElement(NlVariants(f)))
+    [] t = "mpreach"   -> LET f == RandomElement(CoreFamilies)
+                          IN MpN(f, RandomElement(NlVariants(f)), RandomElement(NhKindsOf(f)))
     [] OTHER         -> Simple(t)
 RECURSIVE RandAttrs(_, _)
 RandAttrs(k, as2) == IF k = 0 THEN <<>> ELSE <<RandAttr(as2)>> \o RandAttrs(k - 1, as2)
